@@ -103,6 +103,25 @@ class Side:
         self.settle()
         return r if r[0] == 'exc' else ('ok',)
 
+    def back_to_back(self, h, calls):
+        """Several API calls issued one right after the other by the same
+        task/thread on host h (no other activity in between); the channel
+        is drained afterwards."""
+        w = self.via(h)
+        if w.is_async:
+            async def seq():
+                for name, args, kwargs in calls:
+                    await getattr(w.sio, name)(*args, **kwargs)
+            r = w.run(seq)
+        else:
+            r = ('ok', None)
+            for name, args, kwargs in calls:
+                r = w.api(name, *args, **kwargs)
+                if r[0] == 'exc':
+                    break
+        self.settle()
+        return r if r[0] == 'exc' else ('ok',)
+
     def writer_emit(self, *args, **kwargs):
         if self.single:
             r = self.ref.api('emit', *args, **kwargs)
@@ -166,7 +185,8 @@ class Side:
 
 class Model:
     def __init__(self, is_async, placement, pairs, seed=0, maxcb=2,
-                 cbpairs=None):
+                 cbpairs=None, sidroom=False):
+        self.sidroom = sidroom
         self.maxcb = maxcb
         self.cbpairs = cbpairs
         self.is_async = is_async
@@ -189,6 +209,7 @@ class Model:
         w.B = Side(self.is_async, self.placement, single=True)
         w.conn = set()
         w.member = set()        # (c, ns) in ROOM
+        w.sidmember = set()     # (c, ns) in the room named after c0's sid
         w.pendcb = {}           # (c, ns) -> issuing host
         w.ncb = 0
         self.compare(w, 'initial')
@@ -210,8 +231,13 @@ class Model:
                     ops.append(('sdisc', c, ns, h))
                     if (c, ns) in w.member:
                         ops.append(('leave', c, ns, h))
+                        ops.append(('emit+leave', c, ns, h))
                     else:
                         ops.append(('enter', c, ns, h))
+                    if self.sidroom and c != 0 and ns == '/' and \
+                            (0, '/') in w.conn:
+                        ops.append(('enter-sid0' if (c, ns) not in w.sidmember
+                                    else 'leave-sid0', c, ns, h))
                     if len(w.pendcb.get((c, ns), ())) < self._maxcb(c, ns):
                         ops.append(('emitcb', c, ns, h))
                 pend = w.pendcb.get((c, ns), ())
@@ -224,6 +250,8 @@ class Model:
         for h in hosts:
             for ns in ('/', '/x'):
                 ops.append(('close', ns, h))
+            if any(m[1] == '/' for m in w.member):
+                ops.append(('emit+close', '/', h))
         return ops
 
     def _bad(self, w, key, msg):
@@ -267,6 +295,32 @@ class Model:
                                    namespace=ns))
             self._results(w, op, ra, rb)
             (w.member.add if kind == 'enter' else w.member.discard)((c, ns))
+        elif kind in ('enter-sid0', 'leave-sid0'):
+            _, c, ns, h = op
+            name = kind.split('-')[0] + '_room'
+            ra, rb = self._both(
+                w, lambda s: s.api(h, name, s.sids[(c, ns)],
+                                   s.sids[(0, '/')], namespace=ns))
+            self._results(w, op, ra, rb)
+            (w.sidmember.add if kind.startswith('enter')
+             else w.sidmember.discard)((c, ns))
+        elif kind == 'emit+leave':
+            _, c, ns, h = op
+            ra, rb = self._both(w, lambda s: s.back_to_back(h, [
+                ('emit', ('ev', 'before-leave'), dict(to=ROOM,
+                                                      namespace=ns)),
+                ('leave_room', (s.sids[(c, ns)], ROOM),
+                 dict(namespace=ns))]))
+            self._results(w, op, ra, rb)
+            w.member.discard((c, ns))
+        elif kind == 'emit+close':
+            _, ns, h = op
+            ra, rb = self._both(w, lambda s: s.back_to_back(h, [
+                ('emit', ('ev', 'before-close'), dict(to=ROOM,
+                                                      namespace=ns)),
+                ('close_room', (ROOM,), dict(namespace=ns))]))
+            self._results(w, op, ra, rb)
+            w.member = {m for m in w.member if m[1] != ns}
         elif kind == 'close':
             _, ns, h = op
             ra, rb = self._both(w, lambda s: s.api(h, 'close_room', ROOM,
@@ -301,6 +355,9 @@ class Model:
     def _gone(self, w, c, ns):
         w.conn.discard((c, ns))
         w.member.discard((c, ns))
+        w.sidmember.discard((c, ns))
+        if (c, ns) == (0, '/'):
+            w.sidmember.clear()     # its next sid names a different room
         w.pendcb.pop((c, ns), None)
 
     def _results(self, w, op, ra, rb):
@@ -319,7 +376,11 @@ class Model:
         return oa
 
     def canon(self, w):
+        # members of rooms named after a *retired* sid of client 0 keep
+        # that membership in both systems; the real tables are compared
+        # through rooms() at every step, so only the live flag is state
         return (tuple(sorted(w.conn)), tuple(sorted(w.member)),
+                tuple(sorted(w.sidmember)),
                 tuple(sorted(w.pendcb.items())))
 
     def probe(self, w):
@@ -378,6 +439,7 @@ def run(tier, seed, result):
                           pairs=[list(p) for p in pairs], seed=seed)
             if tier == 'quick':
                 params['cbpairs'] = [[1, '/']]
+            params['sidroom'] = len(set(placement)) > 1
             st = e1.explore('c07', params, result, max_depth=40)
             closure = closure and st['closure']
             notes.append(f'placement={placement} async={is_async}: {st}')
